@@ -42,7 +42,7 @@ def shards(tier, seed):
 	for s_ in out:
 		if s_.get('kind') in ['index', 'hist'] and not s_.get('sanitizer'):
 			s_['contracts'] = ['C20']
-	out.append(dict(name='suite-contracts', kind='suite-contracts', which=['C20'], tests=['tests/sigs', 'tests/util']))
+	out.append(dict(name='suite-contracts', kind='suite-contracts', which=['C20'], tests=['tests/sigs/test_base.py', 'tests/sigs/test_hdf5.py', 'tests/util/test_indexing.py']))
 	return out
 
 
